@@ -2,7 +2,7 @@
    packets.  Statements only; proofs live in Proofs/Ogg.v. *)
 From Coq Require Import String List NArith.
 Import ListNotations.
-From Verif Require Import Common.Base Model.Ivf Model.Ogg Proofs.Ogg Proofs.OggStream.
+From Verif Require Import Common.Base Model.Ivf Model.Ogg Proofs.Ogg Proofs.OggStream Proofs.OggGlobal.
 Open Scope N_scope.
 
 (* lacing: a packet of n bytes gets n/255 entries of 255 and then n mod 255 *)
@@ -164,6 +164,106 @@ Theorem c33_bos_order : forall serial idp more g final,
                   (N.of_nat (length idp) < full_page -> pg_payload P0 = idp /\ pg_granule P0 = 0).
 Proof. exact shape_bos. Qed.
 Print Assumptions c33_bos_order.
+
+(* c33_bos_order, across streams (multi-track writer, both outputs, any number
+   of tracks, any interleaving of WriteRTP calls): the closed file begins with
+   the beginning-of-stream pages of all tracks, one each, in track order, each
+   carrying exactly the OpusHead of its track with granule 0; every later page
+   belongs to one of the tracks and carries no BOS. *)
+Theorem c33_bos_global : forall rw cfgs ops,
+  NoDup (map tr_serial cfgs) -> Forall fresh cfgs ->
+  exists log : list (N * opage),
+    (exists w1, start_locked (multi_run (new_multi rw cfgs) ops) = Ok w1 /\ mw_out w1 = bytes_of log) /\
+    (N.of_nat (length log) < 4294967296 ->
+     exists B rest,
+       close_multi (multi_run (new_multi rw cfgs) ops) = Ok (bytes_of (B ++ rest)) /\
+       map fst B = map tr_serial cfgs /\
+       Forall2 (fun cfg sp => has_bos (snd sp) = true /\ pg_granule (snd sp) = 0 /\
+                  pg_payload (snd sp) = build_id_header (tr_map cfg) (tr_preskip cfg) (tr_rate cfg))
+               cfgs B /\
+       Forall (fun sp => has_bos (snd sp) = false /\ known cfgs (fst sp)) rest).
+Proof. exact bos_global. Qed.
+Print Assumptions c33_bos_global.
+
+(* One reader pass over the whole closed file (checksums on): the pages of the
+   interleaved log, all of them, in file order, with their serial, header type,
+   granule, sequence number, lacing and payload (rp_of), then EOF; every page
+   belongs to a configured track and the pages of each serial have that track's
+   stream shape (c33_stream_multi).  Field width in the statement: serials
+   below 2^32. *)
+Theorem c33_whole_file : forall rw cfgs ops,
+  NoDup (map tr_serial cfgs) -> Forall fresh cfgs ->
+  Forall (fun c => tr_serial c < 4294967296) cfgs ->
+  exists log : list (N * opage),
+    (exists w1, start_locked (multi_run (new_multi rw cfgs) ops) = Ok w1 /\ mw_out w1 = bytes_of log) /\
+    (N.of_nat (length log) < 4294967296 ->
+     exists out final,
+       close_multi (multi_run (new_multi rw cfgs) ops) = Ok out /\ out = bytes_of final /\
+       read_pages (S (length out)) true out = (map rp_of final, "EOF"%string) /\
+       Forall (fun sp => known cfgs (fst sp)) final /\
+       forall i cfg ps,
+         nth_error cfgs i = Some cfg ->
+         nth_error (run_pss (map (fun _ => []) cfgs) ops) i = Some ps ->
+         stream_shape (tr_serial cfg) ([hdr_id cfg; hdr_tags cfg] ++ data_pkts 0 ps) (gsum 0 ps)
+                      (mine (tr_serial cfg) final)).
+Proof. exact whole_file_read. Qed.
+Print Assumptions c33_whole_file.
+
+Theorem c33_whole_file_single : forall fd rate cm serial t ops,
+  serial < 4294967296 ->
+  exists w0, new_single fd rate cm serial t = Ok w0 /\
+    let cfg := new_track rate cm serial t in
+    let pkts := [hdr_id cfg; hdr_tags cfg] ++ data_pkts 0 (accepted ops) in
+    exists pages,
+      sw_out (single_run w0 ops) = flat_map pg_data pages /\
+      (N.of_nat (length pages) < 4294967296 ->
+       exists out final,
+         close_single (single_run w0 ops) = Ok out /\ out = flat_map pg_data final /\
+         stream_shape serial pkts (gsum 0 (accepted ops)) final /\
+         read_pages (S (length out)) true out = (map (fun P => rp_of (serial, P)) final, "EOF"%string)).
+Proof. exact whole_file_read_single. Qed.
+Print Assumptions c33_whole_file_single.
+
+(* What NewTrack accepts (model of validateChannelMapping / defaultChannelMapping
+   / validateOpusTags / the duplicate checks, tied to the code by suite "cfg"):
+   an accepted configuration has a new SSRC and a new serial, gives a fresh
+   track with the configured serial, rate and tags, a channel mapping that
+   satisfies the premise of the OpusHead round trip, UTF-8 vendor and values
+   and comment names without '='. *)
+Theorem c33_accepted_config : forall used c tr,
+  new_track_checked used c = Ok tr -> tc_streams c < 256 -> tc_coupled c < 256 ->
+  ~ In (tc_ssrc c) (map fst used) /\ ~ In (tc_serial c) (map snd used) /\
+  tr_serial tr = tc_serial c /\ tr_rate tr = tc_rate c /\ tr_tags tr = tc_tags c /\ fresh tr /\
+  chmap_ok (tr_map tr) /\ valid_utf8 (t_vendor (tc_tags c)) = true /\
+  Forall (fun cm => ~ In 61 (fst cm) /\ valid_utf8 (snd cm) = true) (t_comments (tc_tags c)).
+Proof. exact new_track_checked_ok. Qed.
+Print Assumptions c33_accepted_config.
+
+(* ... so after any sequence of NewTrack calls the registered tracks have
+   pairwise distinct serials and are fresh: the premises NoDup / Forall fresh
+   of c33_stream_multi, c33_eos, c33_bos_global and c33_whole_file hold for
+   every Writer that can be built *)
+Theorem c33_tracks_distinct : forall cs,
+  NoDup (map tr_serial (registered (add_tracks [] cs))) /\ Forall fresh (registered (add_tracks [] cs)).
+Proof. exact add_tracks_distinct. Qed.
+Print Assumptions c33_tracks_distinct.
+
+(* refused and accepted configurations *)
+Example c33_config_examples :
+  let t := mkTags [112] [] in
+  map (fun r => match r with Ok _ => 0 | Err _ => 1 | Panic => 2 end)
+      (add_tracks [] [mkTcfg 1 10 48000 0 2 0 0 [] t;                    (* stereo, family 0 *)
+                      mkTcfg 2 10 48000 0 1 0 0 [] t;                    (* same serial *)
+                      mkTcfg 1 11 48000 0 1 0 0 [] t;                    (* same SSRC *)
+                      mkTcfg 3 12 48000 0 3 0 0 [] t;                    (* three channels in family 0 *)
+                      mkTcfg 4 13 48000 1 0 1 1 [0; 1] t;                (* family 1 stereo *)
+                      mkTcfg 5 14 48000 1 0 2 0 [0; 1; 2] t;             (* two streams *)
+                      mkTcfg 6 15 48000 255 0 1 1 [0; 1; 255; 2] t;      (* entry 2 out of range *)
+                      mkTcfg 7 16 48000 255 0 1 1 [0; 1; 255] (mkTags [195; 40] []);           (* vendor not UTF-8 *)
+                      mkTcfg 8 17 48000 255 0 1 1 [0; 1; 255] (mkTags [] [([97; 61], [98])]);  (* '=' in a name *)
+                      mkTcfg 9 18 48000 255 0 1 1 [0; 1; 255] (mkTags [226; 130; 172] [([97], [240; 159; 152; 128])])])
+  = [0; 1; 1; 1; 0; 1; 1; 1; 1; 0].
+Proof. vm_compute. reflexivity. Qed.
 
 Example c33_example_tags :
   tags_ok (mkTags [112; 105; 111; 110] [([84], [120; 61; 121])]) /\
